@@ -90,6 +90,10 @@ queue_retention {
   max_age 1h
   prune_interval 1s
 }
+queue_limits {
+  max_depth 14
+  drop_policy reject
+}
 /in/pull {
   pull { path /pull/p }
 }
@@ -119,7 +123,8 @@ type Run struct {
 	Crash    string        // VERIF_CRASH value ("" = none)
 	KillAt   time.Duration // external SIGKILL after this delay (0 = none)
 	HitLog   bool
-	CkptMs   int // > 0: the store checkpoints its WAL every CkptMs milliseconds (hook VERIF_SQLITE_CHECKPOINT_MS)
+	Early    bool // restart at once and poll before the leases of the killed process run out, then again afterwards
+	CkptMs   int  // > 0: the store checkpoints its WAL every CkptMs milliseconds (hook VERIF_SQLITE_CHECKPOINT_MS)
 	ports    ports
 	cmd      *exec.Cmd
 	exited   chan struct{}
@@ -142,6 +147,13 @@ func digest(b []byte) string {
 }
 
 func (r *Run) emit(ev map[string]any) { r.events = append(r.events, ev) }
+
+func (r *Run) leaseTTL() string {
+	if r.Early {
+		return "2s"
+	}
+	return "1s"
+}
 
 func (r *Run) start(crash string) error {
 	cmd := exec.Command(r.Bin, "run", "--config", filepath.Join(r.Dir, "Hookaidofile"), "--db", filepath.Join(r.Dir, "q.db"), "--log-level", "error")
@@ -254,7 +266,7 @@ func (r *Run) doOp(op WorkOp) {
 		status, _ := r.post(r.ports.admin, "/messages/publish", b, map[string]string{"X-Hookaido-Audit-Reason": "verif"})
 		r.emit(map[string]any{"ev": "Enq", "kind": "publish", "keys": keys, "acked": status == 200, "refused": status >= 400, "atomic": true, "status": status})
 	case "dequeue":
-		b, _ := json.Marshal(map[string]any{"batch": op.Batch, "lease_ttl": "1s", "max_wait": "0s"})
+		b, _ := json.Marshal(map[string]any{"batch": op.Batch, "lease_ttl": r.leaseTTL(), "max_wait": "0s"})
 		status, body := r.post(r.ports.pull, "/pull/p/dequeue", b, map[string]string{"Authorization": "Bearer tok"})
 		keys := []any{}
 		if status == 200 {
@@ -461,28 +473,38 @@ func (r *Run) Execute() ([]map[string]any, error) {
 	restarted := false
 	offered := []any{}
 	if opened {
-		// let the backlog age past queue_retention.prune_interval (1s, far below max_age) and the leases (1s) run out
-		time.Sleep(1200 * time.Millisecond)
+		poll := func() bool {
+			b, _ := json.Marshal(map[string]any{"batch": 50, "lease_ttl": "30s", "max_wait": "0s"})
+			status, body := r.post(r.ports.pull, "/pull/p/dequeue", b, map[string]string{"Authorization": "Bearer tok"})
+			if status != 200 {
+				return false
+			}
+			var resp struct {
+				Items []struct {
+					PayloadB64 string `json:"payload_b64"`
+				} `json:"items"`
+			}
+			if json.Unmarshal(body, &resp) != nil || len(resp.Items) == 0 {
+				return false
+			}
+			for _, it := range resp.Items {
+				offered = append(offered, r.keyOfPayload(it.PayloadB64, "pull"))
+			}
+			return true
+		}
+		if !r.Early {
+			// let the backlog age past queue_retention.prune_interval (1s, far below max_age) and the leases (1s) run out
+			time.Sleep(1200 * time.Millisecond)
+		}
 		if err := r.start(""); err == nil {
 			restarted = r.waitHealthy(25*time.Second) || r.waitHealthy(35*time.Second)
+			if restarted && r.Early {
+				// a consumer that polls while the killed process's leases (2s) are still running, and again afterwards
+				poll()
+				time.Sleep(2200 * time.Millisecond)
+			}
 			if restarted {
-				for i := 0; i < 6; i++ {
-					b, _ := json.Marshal(map[string]any{"batch": 50, "lease_ttl": "30s", "max_wait": "0s"})
-					status, body := r.post(r.ports.pull, "/pull/p/dequeue", b, map[string]string{"Authorization": "Bearer tok"})
-					if status != 200 {
-						break
-					}
-					var resp struct {
-						Items []struct {
-							PayloadB64 string `json:"payload_b64"`
-						} `json:"items"`
-					}
-					if json.Unmarshal(body, &resp) != nil || len(resp.Items) == 0 {
-						break
-					}
-					for _, it := range resp.Items {
-						offered = append(offered, r.keyOfPayload(it.PayloadB64, "pull"))
-					}
+				for i := 0; i < 6 && poll(); i++ {
 				}
 			}
 			r.kill()
